@@ -313,7 +313,10 @@ class Array:
         """Insert a new element into the Array at position i.
 
         """
-        i = min(i, len(self))  # Inserting beyond len of array inserts at the end (copying standard behaviour)
+        # Negative positions count from the end of the items; everything is clamped to [0, len] (copying list.insert)
+        if i < 0:
+            i = max(i + len(self), 0)
+        i = min(i, len(self))
         self.data.insert(self._create_element(x), i * self._dtype.bitlength)
 
     def pop(self, i: int = -1) -> ElementType:
